@@ -588,6 +588,12 @@ class World(object):
     self.timer_queue = q
     tq.GLOBAL_TIMER_QUEUE = q
     sk.GLOBAL_TIMER_QUEUE = q
+    try:
+      import scales.dispatch as dp
+      if hasattr(dp, 'GLOBAL_TIMER_QUEUE'):
+        dp.GLOBAL_TIMER_QUEUE = q
+    except Exception:
+      pass
     lrt = tq.LowResolutionTime.__new__(tq.LowResolutionTime)
     lrt._interval = 1
     lrt.now = self.clock.now
